@@ -377,6 +377,7 @@ pub async fn exec_c15(script: Value) -> ExecResult {
     let mut ops = 0u64;
     let mut findings: Vec<Violation> = vec![];
     let mut zombie: Option<Violation> = None;
+    let mut overtaken: Option<Violation> = None;
     let r: VResult<()> = async {
         cluster_up(&root, &cfg, id).await?;
         advance(8_000).await;
@@ -389,6 +390,10 @@ pub async fn exec_c15(script: Value) -> ExecResult {
         let mut killed: BTreeSet<u64> = BTreeSet::new();
         // keys whose state the harness does not know (an operation on them went unanswered)
         let mut unknown: BTreeSet<(u8, u8)> = BTreeSet::new();
+        // every key that ever saw an HTTP operation; whether any fault was injected in this run
+        let mut http_touched: BTreeSet<(u8, u8)> = BTreeSet::new();
+        let mut faulted = false;
+        let mut owners_seen: BTreeMap<(u8, u8), BTreeSet<(u64, u8)>> = BTreeMap::new();
         let mut rng = Rng::derive(seed, "C15.exec", 0);
         let mut last_beat = sim::now_us();
         // heartbeats of the HTTP instances continue throughout (otherwise they legitimately expire)
@@ -447,6 +452,7 @@ pub async fn exec_c15(script: Value) -> ExecResult {
                         continue;
                     }
                     let w = (*weight % 3) + 1;
+                    http_touched.insert((s, a));
                     let q = format!("serviceName={}&ip={}&port=8080&namespaceId={}&groupName={}&enabled={}&weight={}", CSVCS[s as usize], c_ip(a), NS, GROUP, enabled, w);
                     if let Some((200, _)) = within(8_000, http_call(&node(x).unwrap(), "POST", &format!("/nacos/v1/ns/instance?{}", q))).await {
                         // the HTTP handler's update tag: a weight of 1 leaves the weight of an existing instance as it is
@@ -473,6 +479,7 @@ pub async fn exec_c15(script: Value) -> ExecResult {
                     if grpc_alive.contains_key(&(s, a)) {
                         continue;
                     }
+                    http_touched.insert((s, a));
                     let q = format!("serviceName={}&ip={}&port=8080&namespaceId={}&groupName={}", CSVCS[s as usize], c_ip(a), NS, GROUP);
                     let res = within(8_000, http_call(&node(x).unwrap(), "DELETE", &format!("/nacos/v1/ns/instance?{}", q))).await;
                     http_alive.remove(&(s, a));
@@ -495,6 +502,7 @@ pub async fn exec_c15(script: Value) -> ExecResult {
                     }
                     if grpc_instance(&node(x).unwrap(), &c_conn(x, *conn), CSVCS[s as usize], &c_ip(a), true).await {
                         grpc_alive.insert((s, a), (x, *conn % 2));
+                        owners_seen.entry((s, a)).or_default().insert((x, *conn % 2));
                         ops += 1;
                     }
                 }
@@ -522,6 +530,7 @@ pub async fn exec_c15(script: Value) -> ExecResult {
                 CStep::NetFaults { on } => {
                     net_set_cfg(if *on { fault_net.clone() } else { cfg.net.clone() });
                     if *on {
+                        faulted = true;
                         sim::count("fault.net_faults_on", 1);
                     }
                 }
@@ -529,6 +538,7 @@ pub async fn exec_c15(script: Value) -> ExecResult {
                     let (a, b) = (pick_node(*a), pick_node(*b));
                     if a != b {
                         partition(a, b, true);
+                        faulted = true;
                         sim::count("fault.partition", 1);
                     }
                 }
@@ -539,6 +549,7 @@ pub async fn exec_c15(script: Value) -> ExecResult {
                     if killed.is_empty() {
                         kill_node(x).await;
                         killed.insert(x);
+                        faulted = true;
                         sim::count("fault.kill", 1);
                         // its connections die with it
                         grpc_alive.retain(|_, o| o.0 != x);
@@ -573,19 +584,20 @@ pub async fn exec_c15(script: Value) -> ExecResult {
             for x in &live {
                 per_node.insert(*x, served(&node(*x).unwrap(), name).await);
             }
-            // keys whose last HTTP operation went unanswered are neither known to the harness nor heart-beating: the
-            // statement still wants them to converge (to "gone"); the recorded defect F25 (a silent instance whose time
-            // stamp was refreshed by a sync is never removed) is reported for them separately
-            let unk: BTreeSet<String> = unknown.iter().filter(|(us, _)| *us == s).map(|(_, a)| c_ip(*a)).collect();
-            if !unk.is_empty() {
-                let raw_first = per_node.values().next().cloned().unwrap_or_default();
-                let differs = per_node.values().any(|v| *v != raw_first);
-                let still: Vec<&String> = unk.iter().filter(|ip| per_node.values().any(|v| v.iter().any(|e| &e.0 == *ip))).collect();
-                if (differs || !still.is_empty()) && !still.is_empty() && zombie.is_none() {
-                    zombie = Some(Violation::new("C15.silent_instance_never_removed", format!("service {}: instance(s) {:?} registered over HTTP and not heart-beating since an unanswered operation are still served {} s after quiescence: {:?}", name, still, b_ms / 1000, per_node)));
+            // Recorded defects of the distro reconciliation (known findings, see DESIGN.md): once an HTTP-registered
+            // address has been removed, deregistered or left without heartbeats while sync messages were lost, delayed,
+            // duplicated or a node was down, (F25) the supervising node may never expire it because a sync refreshed its
+            // time stamp without queueing a time-out, and (F26) stale copies on other nodes are never reconciled. Such
+            // addresses are reported as findings and taken out of the comparison; in a run without any fault, and for every
+            // other address, the full oracle applies.
+            let gone_http: BTreeSet<String> = http_touched.iter().filter(|k| k.0 == s && !http_alive.contains_key(k) && !grpc_alive.contains_key(k)).map(|k| c_ip(k.1)).collect();
+            if !gone_http.is_empty() && faulted {
+                let still: Vec<&String> = gone_http.iter().filter(|ip| per_node.values().any(|v| v.iter().any(|e| &e.0 == *ip))).collect();
+                if !still.is_empty() && zombie.is_none() {
+                    zombie = Some(Violation::new("C15.removed_http_instance_still_served", format!("service {}: address(es) {:?} were registered over HTTP and then deregistered or left without heartbeats (an operation on them went unanswered) while faults were injected; {} s after quiescence they are still served: {:?}", name, still, b_ms / 1000, per_node)));
                 }
                 for v in per_node.values_mut() {
-                    v.retain(|e| !unk.contains(&e.0));
+                    v.retain(|e| !gone_http.contains(&e.0));
                 }
             }
             let first = per_node.values().next().cloned().unwrap_or_default();
@@ -608,12 +620,18 @@ pub async fn exec_c15(script: Value) -> ExecResult {
             }
             for ((ms, a), (x, c)) in &grpc_alive {
                 if *ms == s {
+                    if !ips.contains(&c_ip(*a)) && (http_touched.contains(&(s, *a)) || owners_seen.get(&(s, *a)).map(|o| o.len() > 1).unwrap_or(false)) {
+                        if overtaken.is_none() {
+                            overtaken = Some(Violation::new("C15.registration_deleted_by_stale_sync", format!("service {}: the instance {} held by the open gRPC connection {} on live node {} is served by no node; the same address had been registered by another client before (over HTTP, or over gRPC on another node), and that client's delayed update / removal sync overwrote and deleted the newer registration", name, c_ip(*a), c_conn(*x, *c), x)));
+                        }
+                        continue;
+                    }
                     vensure!(ips.contains(&c_ip(*a)), "C15.live_instance_missing", "service {}: the instance {} held by the open gRPC connection {} on live node {} is served by no node (all serve {:?})", name, c_ip(*a), c_conn(*x, *c), x, first);
                 }
             }
             for e in &first {
                 let a = (0..5u8).find(|a| c_ip(*a) == e.0).unwrap_or(9);
-                let expected = http_alive.contains_key(&(s, a)) || grpc_alive.contains_key(&(s, a)) || unknown.contains(&(s, a));
+                let expected = http_alive.contains_key(&(s, a)) || grpc_alive.contains_key(&(s, a));
                 vensure!(expected, "C15.dead_instance_served", "service {}: {} is still served by every node {} s after quiescence although it was deregistered, its connection ended or its node died", name, e.0, b_ms / 1000);
             }
             all_sets.push(first);
@@ -623,6 +641,9 @@ pub async fn exec_c15(script: Value) -> ExecResult {
     }
     .await;
     if let Some(z) = zombie {
+        findings.push(z);
+    }
+    if let Some(z) = overtaken {
         findings.push(z);
     }
     let info = RunInfo { digest, nontrivial: ops >= 4, info: json!({"ops": ops}), findings };
